@@ -125,6 +125,12 @@ package b6
 //@   ensures forall(i, 0, len(t), implies(t[i].Key == key && forall(j, 0, i, t[j].Key != key), result == t[i]))
 //@   ensures implies(forall(j, 0, len(t), t[j].Key != key), result.Key == "")
 
+// TagOrFallback: without a tag carrying the key the result is a tag with that key (the
+// fallback); a list that has the key never yields a tag with a different non-empty key.
+//@ func Tags.TagOrFallback
+//@   ensures implies(forall(j, 0, len(t), t[j].Key != key), result.Key == key)
+//@   ensures forall(i, 0, len(t), implies(t[i].Key == key && forall(j, 0, i, t[j].Key != key), result == t[i] || result.Key == key))
+
 //@ func (*Tags).AddTag
 //@   requires t != nil
 //@   modifies *t
